@@ -66,6 +66,10 @@ def translators():
   import translate_init
   out = {'Src_query': lambda: translate_query.translate(os.path.join(REPO, 'metric_learn', 'base_metric.py')),
          'Src_init': lambda: translate_init.translate(REPO)}
+  import translate_prepare
+  out['Src_prepare'] = lambda: translate_prepare.translate(REPO)
+  import translate_supervised
+  out['Src_supervised'] = lambda: translate_supervised.translate(REPO)
   try:
     import translate_all
     out.update(translate_all.TRANSLATORS)
